@@ -34,8 +34,8 @@ PROFILE = {"irr_methods": [0, 1, 2, 3, 3, 3, 4, 5], "calendar_crop_p": 0.5, "cus
 def gen_case(rng, tier, idx):
     prof = dict(PROFILE)
     if idx % 6 != 5:
-        prof["weather_extra_after"] = 740   # room for uses with a shifted window
-        prof["weather_extra_before"] = 740
+        prof["weather_extra_after"] = 1480   # room for uses with a shifted window (a shift by four years keeps the leap days in place)
+        prof["weather_extra_before"] = 1480
     spec = gen_spec(rng, prof)
     from ..domain import CROP_INFO as _CI
     thermal = _CI[spec["crop"]["name"]]["CalendarType"] == 2
@@ -71,7 +71,7 @@ def gen_case(rng, tier, idx):
         other = None
         if rng.random() < 0.3:
             # a use of the same objects for ANOTHER simulation window (shifted by whole years inside the weather table)
-            other = rng.choice([-2, -1, 1, 2])
+            other = rng.choice([-4, -2, -1, 1, 2, 4])
         if r < 0.45:
             hist.append({"op": "run", "model": model, "how": rng.choice(["till", "till", "steps"]), "shift_years": other})
         elif r < 0.75:
@@ -80,7 +80,7 @@ def gen_case(rng, tier, idx):
             hist.append({"op": "crash", "model": model, "t": t, "pidx": rng.randrange(18)})
     if rng.random() < (0.7 if thermal else 0.3):
         # the very first use of the objects is for another window: whatever the first initialisation leaves on them comes from there
-        y = rng.choice([-2, -1, 1, 2])
+        y = rng.choice([-4, -2, -1, 1, 2, 4])
         hist.insert(0, rng.choice([{"op": "run", "model": "new", "how": "till", "shift_years": y},
                                    {"op": "abandon", "model": "new", "steps": rng.choice([1, 5, 60]), "shift_years": y}]))
     hist.append({"op": "run", "model": rng.choice(["new", "same"]), "how": "till"})
